@@ -272,7 +272,7 @@ def r_whittaker(ctx: Ctx, model):
         ctx.ob(nkept >= 1, Finding("C19.E-whittaker", fi.where, f"whittaker|{mname}|never-kept", "no path keeps the loading"), nontrivial_key=("kept", mname))
 
 
-def r_whittaker_point(ctx: Ctx, model):
+def r_whittaker_point(ctx: Ctx, model, prop="C19", rule="E-whittaker"):
     """a point isotherm handed to the Whittaker analysis is first copied, the COPY converted to absolute pressure in Pa, and a model
     fitted to the copy; the caller's object is never converted (route interpreted with recording stubs)"""
     ctx.rule("E-whittaker (point isotherms): copy -> convert_pressure(mode_to='absolute', unit_to='Pa') on the copy -> model_iso(copy, "
@@ -299,7 +299,7 @@ def r_whittaker_point(ctx: Ctx, model):
                                                         "pressure_unit": None, "_adsorbate": ads, "_temperature": S("T"), "temperature_unit": "K"})
 
         def from_iso(I, fi_, env, n_):
-            log.append(("from_isotherm", getattr(env.get("isotherm"), "label", None), getattr(env.get("isotherm_data"), "label", None)))
+            log.append(("from_isotherm", getattr(env.get("isotherm"), "label", None), "shared" if env.get("isotherm_data") is frame else "fresh"))
             return Obj(cls=pi, label="copy", attrs={"pressure_mode": "relative", "pressure_unit": None})
         I.overrides["pygaps.core.pointisotherm.PointIsotherm.from_isotherm"] = from_iso
         I.overrides["pygaps.core.pointisotherm.PointIsotherm.convert_pressure"] = \
@@ -315,15 +315,32 @@ def r_whittaker_point(ctx: Ctx, model):
         oks = [o for o in outs if o.kind == "ok"]
         lg = oks[0].value[1] if oks else []
         conv = [e for e in lg if e[0] == "convert_pressure"]
-        ok = bool(oks) and [e[:2] for e in lg if e[0] == "from_isotherm"] == [("from_isotherm", "input")] \
-            and conv == [("convert_pressure", "copy", {"mode_to": "absolute", "unit_to": "Pa"})] \
+        # what matters: the object converted (and then fitted) is a copy with its own data table, the conversion names mode AND unit, the
+        # requested model is fitted to the converted object's adsorption branch; how the copy is spelled is free
+        ok = bool(oks) and [e for e in lg if e[0] == "from_isotherm"] == [("from_isotherm", "input", "fresh")] \
+            and bool(conv) and all(e[1] == "copy" for e in conv) and conv[-1][2] == {"mode_to": "absolute", "unit_to": "Pa"} \
             and [e for e in lg if e[0] == "model_iso"] == [("model_iso", "copy", mname, "ads")] \
-            and any(e[0] == "from_isotherm" and e[2] == "data_raw.copy" for e in lg)
-        ctx.ob(ok, Finding("C19.E-whittaker", fi.where, f"whittaker|point-route|{mname}",
+            and lg.index(conv[-1]) < lg.index(next(e for e in lg if e[0] == "model_iso"))
+        ctx.ob(ok, Finding(f"{prop}.{rule}", fi.where, f"whittaker|point-route|{mname}",
                            f"enthalpy_sorption_whittaker(<PointIsotherm in relative pressure>, model={mname!r}): "
                            f"{lg if oks else [repr(o)[:90] for o in outs[:2]]}; required from_isotherm(input, isotherm_data=data_raw.copy()) -> "
                            "convert_pressure(mode_to='absolute', unit_to='Pa') on the copy -> model_iso(copy, model, branch='ads')"),
                nontrivial_key=("whittaker", "point-route", mname))
+        # a model isotherm is used as it is: only one stored in (absolute) Pa is accepted
+        for unit, mode, want_ok in (("Pa", "absolute", True), ("bar", "absolute", False), (None, "relative", False)):
+            def given():
+                o = fitted()
+                o.attrs["pressure_unit"], o.attrs["pressure_mode"], o.label = unit, mode, "given-model"
+                return o
+            outs2 = I.explore(lambda I: (log.clear(), I.call_func(fi, [given()], {"loading": [S("nq")]}, None), list(log))[1:])
+            if want_ok:
+                ok2 = bool(outs2) and all(o.kind == "ok" for o in outs2) and not any(e[0] in ("convert_pressure", "model_iso") for o in outs2 for e in o.value[1])
+            else:
+                ok2 = bool(outs2) and all(o.kind == "raise" and o.exc.is_a("ParameterError") for o in outs2)
+            ctx.ob(ok2, Finding(f"{prop}.{rule}", fi.where, f"whittaker|model-guard|{mname}|{mode}-{unit}",
+                                f"enthalpy_sorption_whittaker(<ModelIsotherm stored in {mode} pressure, unit {unit}>): {[repr(o)[:90] for o in outs2[:2]]}; "
+                                + ("required: used as it is" if want_ok else "required: refused with a parameter error (its parameters are not in Pa)")),
+                   nontrivial_key=("whittaker", "model-guard", mname, str(unit)))
 
 
 def r_point(ctx: Ctx, model):
